@@ -41,21 +41,54 @@ def src_u():
     return "def u():\n    return 0\n"
 
 
+TWIN = "vpc13twin"
+
+
+def twin_text(hv):
+    """another module defining a plain helper h with the SAME text as the program's, but other module-level values behind the names"""
+    return "G = 100\nL = [9, 9, 9]\nT = (0, [9])\ndef g(x):\n    return x * 50\n" + src_h(hv)
+
+
+def ensure_twin(hv):
+    import sys
+    import types
+    import linecache
+
+    mod = sys.modules.get(TWIN)
+    if mod is None or getattr(mod, "_vp_hv", None) != hv:
+        mod = types.ModuleType(TWIN)
+        mod.__package__ = ""
+        mod.__file__ = "<vp:%s>" % TWIN
+        text = twin_text(hv)
+        fname = "<vp:%s:%d>" % (TWIN, hv)
+        linecache.cache[fname] = (len(text), None, text.splitlines(True), fname)
+        exec(compile(text, fname, "exec"), mod.__dict__)
+        mod._vp_hv = hv
+        sys.modules[TWIN] = mod
+    return mod
+
+
 def full_text(st):
     t = src_globals(st["G"], st["L"], st.get("Gk", "int"), st.get("T", 0))
     if st["u"]:
         t += src_u()
-    t += SRC_K + src_g(st["g"], st["gk"], st.get("gd", False)) + src_h(st["h"]) + src_f(st["f"])
-    return t
+    t += SRC_K + src_g(st["g"], st["gk"], st.get("gd", False))
+    if st.get("htwin"):
+        t += "import %s\nh = %s.h\n" % (TWIN, TWIN)
+    else:
+        t += src_h(st["h"])
+    return t + src_f(st["f"])
 
 
 EVENTS = ["redef-f", "redef-g", "redef-h", "rebind-G", "mutate-L", "define-u", "g-to-plain", "g-to-memento",
           "clone-partial", "clone-context", "clone-force-local", "wrapper", "query-f", "query-g", "query-clone", "query-wrapper",
-          "redef-f-same", "rebind-G-to-function", "rebind-G-to-object", "undo-g", "mutate-T-inner", "g-declares-dependency"]
+          "redef-f-same", "rebind-G-to-function", "rebind-G-to-object", "undo-g", "mutate-T-inner", "g-declares-dependency", "rebind-h-to-twin-from-another-module"]
 
 
 def fresh_versions(st):
     """what a fresh process computes for the current program text"""
+    if st.get("htwin"):
+        ensure_twin(st["h"])
     saved = (dict(m.MementoFunction._global_fn_version_cache), m.MementoFunction._global_fn_generation)
     from twosigma.memento import configuration as cfg
 
@@ -112,7 +145,13 @@ def _history(events, L, warm):
                 prog.exec(src_g(st["g"], st["gk"], st.get("gd", False)))
             elif name == "redef-h":
                 st["h"] += 1
+                st["htwin"] = False
                 prog.exec(src_h(st["h"]))
+            elif name == "rebind-h-to-twin-from-another-module":
+                # the name h now refers to a textually identical plain function of ANOTHER module (its G, L, T, g are other objects)
+                st["htwin"] = True
+                prog.mod.h = ensure_twin(st["h"]).h
+                cover("helper-replaced-by-identical-text-from-another-module")
             elif name == "rebind-G":
                 st["G"] += 1
                 st["Gk"] = "int"
@@ -198,9 +237,9 @@ def _history(events, L, warm):
 
 @obligation(
     "C13.histories",
-    covers=("query", "query-clone", "query-wrapper", "query-after-event", "warm-cache", "definition-restored"),
+    covers=("query", "query-clone", "query-wrapper", "query-after-event", "warm-cache", "definition-restored", "helper-replaced-by-identical-text-from-another-module"),
     split={"e0": list(range(len(EVENTS)))},
-    bounds="all event sequences of length <= L over %d events (redefine f/g/h, restore g's previous edition, re-define g with the same body but a declared dependency, rebind / mutate tracked variables (incl. a list inside a tracked tuple), rebind a tracked variable to a function / an "
+    bounds="all event sequences of length <= L over %d events (redefine f/g/h, restore g's previous edition, re-define g with the same body but a declared dependency, rebind / mutate tracked variables (incl. a list inside a tracked tuple), rebind the plain helper to a textually identical function of another module, rebind a tracked variable to a function / an "
            "arbitrary object, define an undefined "
            "symbol, memento<->plain, three kinds of modifier clone, unregistered wrapper, version queries of f/g/clone/wrapper) on the "
            "program f -> h -> g with globals G, L; L = 3 quick, 4 thorough; version cache warm or cold at the start" % len(EVENTS),
